@@ -5,7 +5,7 @@ from props import common
 
 RULE = ("every string over the alphabet {'/', '.', 'a', U+00E9} up to the length bound, joined onto each of "
         "the bases {root, /a, /a/b.c, /é/.x, /abc/d, /ab/cde/f, /é日/x} (component lengths rising and falling, multi-byte), observed through as_str, parent, filename, extension, is_root; "
-        "plus random longer arguments and chains; a case is non-trivial if the argument has >= 2 characters and "
+        "plus random longer arguments and chains; every observation also through AsyncVfsPath (its join is a separate function); a case is non-trivial if the argument has >= 2 characters and "
         "distinct by (base, argument)")
 ASSUMPTIONS = ["join arguments are valid UTF-8 (the API takes &str)"]
 ALPHA = ["/", ".", "a", "é"]
@@ -135,7 +135,19 @@ def run_and_compare(cases, tier):
             dis.append({"case": cname, "case_text": c.text(), "step": step, "op": c.ops[step], "kind": "r",
                         "model": mlines.get(("r", cname, step)), "impl": line, "violates": True,
                         "note": "implementation differs from lexical resolution: expected " + exp})
-    evals = sum(1 for k in ilines if k[0] == "r")
+    # the async port has its own join: the same observations through AsyncVfsPath must be the same strings
+    alines = common.run_async(cases, "c06a")
+    for k in sorted(ilines, key=lambda k: (k[1], k[2])):
+        if k[0] != "r":
+            continue
+        if alines.get(k) != ilines[k] and not any(d["case"] == k[1] for d in dis):
+            c = by_name[k[1]]
+            dis.append({"case": k[1], "case_text": c.text(), "step": k[2], "op": c.ops[k[2]] + "  [AsyncVfsPath]", "kind": "r",
+                        "model": mlines.get(k), "impl": alines.get(k), "violates": True,
+                        "note": "AsyncVfsPath gives %s where VfsPath and the model give %s" % (alines.get(k), ilines[k])})
+            if len(dis) > 5:
+                break
+    evals = sum(1 for k in ilines if k[0] == "r") + sum(1 for k in alines if k[0] == "r")
     distinct = len(set(c.ops[s] for c in cases for s in range(len(c.ops)) if len(c.ops[s]) > 12))
     outcomes = {}
     for k, v in ilines.items():
